@@ -201,7 +201,34 @@ func verif_C17_pool(family, n, k, weighted int) {
 	}
 }
 
+// bit-precise: the Normal estimate respects its lower bound and is never NaN,
+// also when rounding makes the empirical variance s2 - s1^2 negative
+func verif_C16_sigma_fp(n, equal int) {
+	d := symData(n, false, false)
+	if equal == 1 {
+		// repeated observations: the case in which the variance rounds below zero
+		for i := 1; i < n; i++ {
+			d.X[i] = d.X[0]
+			d.x.At(i).SetFloat64(d.X[0])
+		}
+	}
+	for i := 0; i < n; i++ {
+		VerifAssume(d.X[i] > -1e100 && d.X[i] < 1e100)
+	}
+	b := VerifFinite64("bound")
+	VerifAssume(b > 0)
+	q, ok := estimate(0, d, pool(1), b)
+	if !ok {
+		return
+	}
+	VerifReach("sigma-fp")
+	sigma := q[1]
+	VerifAssert("normal:sigma-not-NaN", sigma == sigma)
+	VerifAssert("normal:sigma-respects-minimum", sigma >= b)
+}
+
 func init() {
+	VerifRegister("verif_C16_sigma_fp", func(a []int) { verif_C16_sigma_fp(a[0], a[1]) })
 	VerifRegister("verif_C16_score", func(a []int) { verif_C16_score(a[0], a[1], a[2]) })
 	VerifRegister("verif_C16_bounds", func(a []int) { verif_C16_bounds(a[0], a[1]) })
 	VerifRegister("verif_C17_pool", func(a []int) { verif_C17_pool(a[0], a[1], a[2], a[3]) })
